@@ -49,6 +49,7 @@ def spec():
         "/day": op("getDay", {"200": js({"type": "string", "format": "date"})}),
         "/uid": op("getUid", {"200": js({"type": "string", "format": "uuid"})}),
         "/uids": op("getUids", {"200": js({"type": "array", "items": {"type": "string", "format": "uuid"}})}),
+        "/seq": op("tailSeq", {"200": {"description": "ok", "content": {"application/json-seq": {"schema": ref("Item")}}}}),
         "/ticks": op("tailTicks", {"200": {"description": "ok", "content": {"text/event-stream": {"schema": st}}}}),
         "/changes": op("tailChanges", {"200": {"description": "ok", "content": {"text/event-stream": {"schema": ref("Item")}}}}),
         "/count": op("getCount", {"200": js(it)}),
